@@ -1,26 +1,34 @@
 #!/bin/bash
-# usage: seedtest.sh <cXX> <demo-target-dir-relative-to-repo> <go test -run pattern>
-# confirms a seeded change in its scratch worktree (builds, existing tests pass, demo fails with / passes without),
-# then runs the /verif check for the property against /repo with the patch applied, and undoes it.
+# usage: seedtest.sh <seed-dir-name under /tmp/seed> <PROPERTY> <demo-target-dir-relative-to-repo> <go test -run pattern> [extra go test flags]
+# Confirms a seeded change in its scratch worktree (builds, existing tests pass, demo passes without / fails with the
+# change), then runs the /verif check for the property against /repo with the patch applied, and undoes it.
+# Prints a summary line "SEED <name> <PROPERTY> demo_clean=<PASS|FAIL> tests=<ok|FAIL> demo_patched=<FAIL|PASS> check=<VIOLATION|MISSED>".
 set -u
-id=$1; ddir=$2; pat=$3; xflags=${4:-}
+id=$1; PID=$2; ddir=$3; pat=$4; xflags=${5:-}
 export GOFLAGS=-mod=mod GOPROXY=off GOSUMDB=off GOTOOLCHAIN=local GOCACHE=/verif/.cache/gocache
 wt=/tmp/seed/$id/repo; out=/tmp/seed/$id/out
-PID=$(echo $id | tr a-z A-Z)
 cd $wt && git checkout -q -- . && git clean -qfd
-echo "== demo on unchanged code (expect PASS)"
+git merge -q --ff-only main 2>/dev/null
 cp $out/demo/*_test.go $wt/$ddir/ 2>/dev/null
-(cd $wt/$ddir && timeout 600 go test $xflags -count=1 -run "$pat" . 2>&1 | tail -3)
-git apply $out/patch.diff || { echo "PATCH DOES NOT APPLY"; exit 1; }
-echo "== build + existing tests with the change (expect ok)"
-(cd $wt && go build ./... && cd lib/go && go build ./... && go build -tags verif ./...) 2>&1 | tail -3
-rm -f $wt/$ddir/zz_demo*_test.go
-(cd $wt && timeout 900 go test -count=1 ./... 2>&1 | grep -v "no test files" | tail -4)
-(cd $wt/lib/go && timeout 900 go test -count=1 ./... 2>&1 | tail -2)
-echo "== demo with the change (expect FAIL)"
+r1=$(cd $wt/$ddir && timeout 900 go test $xflags -count=1 -run "$pat" . 2>&1 | tail -3)
+echo "$r1" | grep -q "^ok" && dc=PASS || dc=FAIL
+rm -f $wt/$ddir/zz_*_test.go
+git apply $out/patch.diff || { echo "SEED $id $PID PATCH-DOES-NOT-APPLY"; exit 1; }
+b=$( (cd $wt && go build ./... && cd lib/go && go build ./... && go build -tags verif ./...) 2>&1 | tail -3)
+t1=$(cd $wt && timeout 1200 go test -count=1 ./... 2>&1 | grep -v "no test files" | grep -v "^ok" | tail -3)
+t2=$(cd $wt/lib/go && timeout 1200 go test -count=1 ./... 2>&1 | grep -v "^ok" | tail -3)
+[ -z "$b$t1$t2" ] && ts=ok || ts="FAIL($b $t1 $t2)"
 cp $out/demo/*_test.go $wt/$ddir/
-(cd $wt/$ddir && timeout 600 go test $xflags -count=1 -run "$pat" . 2>&1 | tail -4)
+r2=$(cd $wt/$ddir && timeout 900 go test $xflags -count=1 -run "$pat" . 2>&1 | tail -4)
+echo "$r2" | grep -q "^ok" && dp=PASS || dp=FAIL
 cd $wt && git checkout -q -- . && git clean -qfd
-echo "== /verif check $PID against /repo with the patch (expect VIOLATION)"
-git -C /repo apply $out/patch.diff && (cd /verif && timeout 1500 python3 tools/check.py $PID 2>&1 | grep -v "^KNOWN" | tail -4 | cut -c1-300)
-git -C /repo checkout -q -- . && git -C /repo status --short | head -3
+git -C /repo apply $out/patch.diff
+c=$(cd /verif && timeout 2400 python3 tools/check.py $PID 2>&1 | grep -v "^KNOWN" | tail -3)
+git -C /repo checkout -q -- .
+echo "$c" | grep -q "VIOLATION" && ck=VIOLATION || ck=MISSED
+echo "$c" | grep "VIOLATION" | grep -vq "no-failing-input-found" && kind=concrete || kind=nfi
+first=$(ls /verif/replays/$PID-*.json 2>/dev/null | head -1)
+what=""
+[ -n "$first" ] && what=$(python3 -c "import json,sys;print(json.load(open('$first'))['what'][:200])")
+echo "SEED $id $PID demo_clean=$dc tests=$ts demo_patched=$dp check=$ck($kind) :: $what"
+echo "$r2" | grep -v "^FAIL\|^ok" | head -2
